@@ -1028,7 +1028,13 @@ func scannerKeywords(p *Prog) (*scanKeywords, error) {
 	// discover read / readRegex structurally: methods in R calling strings.HasPrefix / regexp.Compile
 	for _, cs := range p.StdCallees["strings.HasPrefix"] {
 		if cs.Caller.Signature.Recv() != nil && strings.Contains(cs.Caller.String(), "expressionStream") {
-			k.ReadFn = cs.Caller
+			// the keyword matcher tests for its own string parameter
+			args := cs.Instr.Common().Args
+			if len(args) == 2 {
+				if prm, ok := args[1].(*ssa.Parameter); ok && prm.Parent() == cs.Caller {
+					k.ReadFn = cs.Caller
+				}
+			}
 		}
 	}
 	for _, name := range []string{"regexp.Compile", "regexp.MustCompile"} {
@@ -1057,6 +1063,35 @@ func scannerKeywords(p *Prog) (*scanKeywords, error) {
 					if s, ok := constString(arg); ok {
 						k.Prefixes = append(k.Prefixes, s)
 						continue
+					}
+					// the caller's own string parameter (a shared reader of "prefix + id" tokens): the
+					// constants its call sites pass
+					if prm, ok := arg.(*ssa.Parameter); ok {
+						idx := -1
+						for i, fp := range f.Params {
+							if fp == prm {
+								idx = i
+							}
+						}
+						var consts []string
+						okAll := idx >= 0
+						for _, g := range p.RList {
+							for _, gb := range g.Blocks {
+								for _, gin := range gb.Instrs {
+									if gc, ok := gin.(*ssa.Call); ok && gc.Call.StaticCallee() == f && idx < len(gc.Call.Args) {
+										if s, ok := constString(gc.Call.Args[idx]); ok {
+											consts = append(consts, s)
+										} else {
+											okAll = false
+										}
+									}
+								}
+							}
+						}
+						if okAll && len(consts) > 0 {
+							k.Prefixes = append(k.Prefixes, consts...)
+							continue
+						}
 					}
 					// range element of a literal array: t = *alloc; t[i]
 					if ix, ok := arg.(*ssa.Index); ok {
